@@ -21,7 +21,9 @@ Paths == PathsUpTo(3) \ {<<>>}
 
 SmallAtoms == {A("all"), A("none"), StrS("a"), StrS("b"), TupS(<<"a">>), TupS(<<"a", "b">>),
                TupS(<<"b", "a">>), TupS(<<"a", "a", "b">>),
-               DictS([x \in {"a"} |-> StrS("b")]), DictS([x \in {"a", "b"} |-> IF x = "a" THEN TupS(<<"a", "b">>) ELSE A("all")])}
+               DictS([x \in {"a"} |-> StrS("b")]), DictS([x \in {"a", "b"} |-> IF x = "a" THEN TupS(<<"a", "b">>) ELSE A("all")]),
+               (* complements of hierarchical selections as operands of the depth-1 unions / intersections *)
+               NotS(TupS(<<"a", "b">>)), NotS(DictS([x \in {"a"} |-> StrS("b")]))}
 DictVals == {A("all"), A("none"), StrS("a"), StrS("b"), TupS(<<"b">>), TupS(<<"a", "b">>)}
 FullAtoms == {A("all"), A("none")} \cup {StrS(x) : x \in Addrs}
              \cup {TupS(p) : p \in (PathsUpTo(2) \ {<<>>})} \cup {TupS(<<"a", "a", "b">>), TupS(<<"a", "b", "a">>)}
